@@ -34,6 +34,7 @@ type Profile struct {
 	Cancel         int // percent of scenarios with a cancel/shutdown step
 	Delay          int
 	DelayNever     int // % of delayed containers whose delay is never released
+	DelaySleep     int // % of delayed containers whose final release is followed by a pause, not by empty Writes
 	Notifier       int
 	UserWG         int  // percent of containers with WithWaitGroup
 	Gets           int  // weight of get steps
@@ -234,11 +235,17 @@ func genSetup(t *rapid.T, prof *Profile) *engine.Scenario {
 		sc.Cfg.PtyCols = rapid.IntRange(40, 100).Draw(t, "ptycols")
 	}
 	sc.Cfg.Delay = pct(t, prof.Delay, "delay")
+	if sc.Cfg.Delay && prof.DelaySleep > 0 {
+		sc.Cfg.DelaySleepRelease = pct(t, prof.DelaySleep, "delaysleep")
+	}
 	if sc.Cfg.Delay && prof.DelayNever > 0 {
 		sc.Cfg.DelayNever = pct(t, prof.DelayNever, "delaynever")
 	}
 	sc.Cfg.Notifier = pct(t, prof.Notifier, "notifier")
 	sc.Cfg.UserWG = pct(t, prof.UserWG, "userwg")
+	if sc.Cfg.UserWG {
+		sc.Cfg.UserWGUntilDone = rapid.Bool().Draw(t, "userwguntildone")
+	}
 	if sc.Cfg.Refresh == "manual" && pct(t, 15, "alsoauto") {
 		sc.Cfg.AlsoAuto = rapid.IntRange(1, 2).Draw(t, "alsoautoorder")
 	}
@@ -297,6 +304,7 @@ func genSteps(t *rapid.T, prof *Profile, sc *engine.Scenario) []engine.Step {
 	nextAdd := 0
 	ticksSinceTerm := make([]int, nb) // render cycles requested since the bar finished
 	everLive := make([]bool, nb)      // some other bar was running at every tick since it finished (no early refresh)
+	tainted := make([]bool, nb)       // frames not clocked by the program may have been drawn since it finished (early refresh of any bar)
 	noted := 0
 	// note brings the bookkeeping of the late-successor rule up to date with the
 	// steps appended so far
@@ -324,6 +332,22 @@ func genSteps(t *rapid.T, prof *Profile, sc *engine.Scenario) []engine.Step {
 					everLive[i] = false
 				}
 			}
+			// a bar that finishes while nothing else runs asks for frames by itself
+			// until it has been through its last two; those frames also advance every
+			// other finished bar
+			earlyRefresh := false
+			for i, g := range gb {
+				if g.added && g.m.Terminal() && !everLive[i] && ticksSinceTerm[i] < 2 {
+					earlyRefresh = true
+				}
+			}
+			for i, g := range gb {
+				if !g.added || !g.m.Terminal() {
+					tainted[i] = false
+				} else if earlyRefresh && ticksSinceTerm[i] < 2 {
+					tainted[i] = true
+				}
+			}
 		}
 		noted = len(steps)
 	}
@@ -342,7 +366,7 @@ func genSteps(t *rapid.T, prof *Profile, sc *engine.Scenario) []engine.Step {
 						otherLive = true
 					}
 				}
-				if !(sc.Cfg.Refresh == "autoinj" && otherLive && ticksSinceTerm[a] < 2 && everLive[a]) {
+				if !(sc.Cfg.Refresh == "autoinj" && otherLive && ticksSinceTerm[a] < 2 && everLive[a] && !tainted[a]) {
 					sc.Bars[nextAdd].QueueAfter = -1
 					excludedKnown++
 				}
@@ -374,6 +398,7 @@ func genSteps(t *rapid.T, prof *Profile, sc *engine.Scenario) []engine.Step {
 	manual := sc.Cfg.Refresh == "manual" || sc.Cfg.Refresh == "none"
 	wcount := 0
 	for k := 0; k < n; k++ {
+		note() // (step by step: the bookkeeping looks at the model state after each choice)
 		if k == cancelAt {
 			op := "cancel"
 			if rapid.Bool().Draw(t, "shutdown") {
@@ -588,7 +613,8 @@ func genSteps(t *rapid.T, prof *Profile, sc *engine.Scenario) []engine.Step {
 		}
 		if prof.Gets > 0 && len(any) > 0 {
 			cs = append(cs, choice{prof.Gets, func() {
-				steps = append(steps, engine.Step{Op: "get", Bar: rapid.SampledFrom(any).Draw(t, "getbar")})
+				// (Flag: two more goroutines poll Completed and Aborted meanwhile)
+				steps = append(steps, engine.Step{Op: "get", Bar: rapid.SampledFrom(any).Draw(t, "getbar"), Flag: rapid.IntRange(0, 2).Draw(t, "polled") == 0})
 			}})
 		}
 		if !released && !sc.Cfg.DelayNever {
